@@ -16,7 +16,7 @@ CHECKS = {
          "Seeded exploration (programs x limit configurations x schedules x clock stalls) with oracles S1-S6 of DESIGN §3 C11 (no silent truncation, limits honoured, distinguishable and possible error, bounded call time, limits honoured by every constructor, no stranded goroutine), plus a fault-enumeration part that is exhaustive in the injection step of the stall for a fixed catalogue of small programs (reported under coverage.fault_enumeration). Sampling elsewhere.",
          "trusted: reference model for |lfp| and depth, synctest's durable-blocking detection, runtime.Stack for the goroutine census", "DESIGN.md §3 C11"),
  "C01": ("exploration", "deterministic simulation with fault injection: multi-party histories (issuers, holders, verifiers) over a simulated transport on which a key-less adversary mutates in-flight tokens; oracle = independent wire decoder + ed25519 chain walk + ground-truth key ledger",
-         "Seeded exploration of derivation histories (chains up to 16 blocks, the same token object verified repeatedly) x 1-3 mutations per message drawn from 34 byte-level and structural mutation kinds; soundness (accepted => reference chain walk accepts and the authority block was signed by the issuer per the key ledger), completeness (well-formed and valid => accepted, under a single key and under key sources holding the issuer's key under the id its builder was given or as default, including legitimately valid mutations such as appending with a captured next secret) and 'no Authorizer for a rejected token'. Sampling; ed25519 itself is trusted.",
+         "Seeded exploration of derivation histories (chains up to 16 blocks, the same token object verified repeatedly) x 1-3 mutations per message drawn from 35 byte-level and structural mutation kinds (including tokens forged without any private key under the all-zero small-order public key); soundness (accepted => reference chain walk accepts and the authority block was signed by the issuer per the key ledger), completeness (well-formed and valid => accepted, under a single key and under key sources holding the issuer's key under the id its builder was given or as default, including legitimately valid mutations such as appending with a captured next secret) and 'no Authorizer for a rejected token'. Sampling; ed25519 itself is trusted.",
          "trusted: bsim/ref wire reader and chain walk, crypto/ed25519; mutation kinds are those listed in the evidence 'rule'", "DESIGN.md §3 C01"),
  "C02": ("exploration", "deterministic simulation: delegation histories with hostile holders generating blocks against the verifier's policies; lineage invariant over the recorded history (model-free)",
          "Seeded exploration of delegation chains (1-5 hops) whose appended blocks are generated against the token and the authorizer content; invariant allow(descendant) => allow(ancestor) for every ancestor verified with the same authorizer content. Model-free relational oracle, so a reference-model bug cannot raise a C02 alarm. Sampling; reach is that of the adversarial block generator.",
